@@ -91,7 +91,7 @@ def config_stream(rep, rng, quick):
               'secg': -0.5, 'this': 0.0, 'thig': 0.0}
     configs = [dict(p=0), dict(p=1, scheme='csbar'), dict(p=0, Q02=2.0), dict(p=1, scheme='msbar')] if not quick else \
         [dict(p=0), dict(p=1, scheme='csbar'), dict(p=0, Q02=2.0)]
-    bases = ['PWNormGPD', 'MellinBarnesCFF', 'MellinBarnesTFF', 'DIS', 'BMK']
+    bases = ['PWNormGPD', 'MellinBarnesCFF', 'MellinBarnesTFF', 'DIS', 'BMK', 'DVMP']
     Q2s = [rng.choice([4.0, 8.5, 12.0, 25.0]) for _ in range(2 if quick else 5)]
     jobs = []
     for q in Q2s:
@@ -103,6 +103,9 @@ def config_stream(rep, rng, quick):
             jobs.append(dict(theory=spec, cfg=ci, op='Hx', point=dict(x=xB, eta=0, t=0, Q2=q)))
             jobs.append(dict(theory=spec, cfg=ci, op='predict', observable='XGAMMA',
                              point=dict(W=82., Q2=q, t=-0.2, process='gammastarp2rho0p')))
+            jobs.append(dict(theory=spec, cfg=ci, op='predict', observable='XGAMMA',
+                             point=dict(W=82., Q2=q, t=-0.2, process='gammastarp2gammap')))
+    rng.shuffle(jobs)      # DVCS-, DVMP- and DIS-type quantities at the same scale in either order on the shared object
     # main process: one SHARED theory object per configuration, jobs in the listed order
     import ref_eval
     shared = {}
@@ -130,7 +133,8 @@ def config_stream(rep, rng, quick):
     ref = json.loads(out.strip().splitlines()[-1])
     ref_by_job = {i: r for i, r in zip(order, ref)}
     for i, (j, r) in enumerate(zip(jobs, main_res)):
-        rep.case('config', (i, j['cfg'], j['op'], j.get('observable'), j['point'].get('Q2')),
+        rep.hist('config.result', 'exception ' + r if r.startswith('EXC:') else 'value')
+        rep.case('config', (i, j['cfg'], j['op'], j.get('observable'), j['point'].get('Q2')), nontrivial=not r.startswith('EXC:'),
                  sample=dict(config=j['theory']['kwargs'], op=j['op'], observable=j.get('observable'), Q2=j['point'].get('Q2')) if i < 3 else None)
         if r != ref_by_job[i]:
             rep.violation('config/%s/%s' % (j['op'], j.get('observable', '')),
